@@ -15,7 +15,9 @@ pub struct Context { _p: () }
 pub struct Tera { pub filters: VxOpaque, pub vx_opaque: VxOpaque }
 impl Tera {
     #[verifier::external_body]
-    pub fn must_get_template(&self, name: &String) -> TeraResult<&Template> { unimplemented!() }
+    pub fn must_get_template(&self, name: &String) -> (r: TeraResult<&Template>)
+        ensures r is Ok ==> r->Ok_0 == tpl_named(self, name@)
+    { unimplemented!() }
 }
 pub struct VxWriter { pub bytes: Vec<u8> }
 #[verifier::external_body]
@@ -54,3 +56,6 @@ impl<'t> State<'t> {
         ensures r.context == context, r.capture_block is None, r.global_context is None
     { unimplemented!() }
 }
+
+/// the registered template of that name (resolution itself: unit resolve_name)
+pub uninterp spec fn tpl_named(t: &Tera, name: Seq<char>) -> &Template;
